@@ -568,9 +568,11 @@ def count_ifs(items):
 
 # ----------------------------------------------------------------------------- instructions that name local symbols
 def gen_instr_program(rng):
-    """`start:` / `jmp end` (shrinks after the first pass) / a declaration tree in which constants are literals or take
-    the address of a label (so their first-pass value is a guess), with the same local name under a label parent and
-    under a constant parent / `ld <reference>` instructions at random positions / `end:`"""
+    """literal global constants named like the locals / `start:` / `jmp end` (shrinks after the first pass) / a declaration
+    tree in which constants are literals, take the address of a label by its full name, or are defined from a DOTTED
+    reference to a sibling (`.m = .k + 1`), so their first-pass value is a guess; the same local name under a label parent
+    and under a constant parent; a nested constant over a dotted local that is a label or an address constant, declared
+    before or after / `ld <reference>` and `#d8 <reference>` readers at random positions / `end:`"""
     tree = gen_tree(rng, rng.range(3, 9))
     sc = Scopes(tree)
     if sc.error:
@@ -583,11 +585,51 @@ def gen_instr_program(rng):
         e = ("r", 0, tgt)
         return ("+", e, ("l", rng.range(1, 3))) if rng.chance(0.3) else e
 
+    def sibling_expr(i):
+        # a DOTTED reference from constant i to a sibling under the same parent (a label if there is one): `.m = .k + 1`
+        d = sc.decl[i]
+        sibs = [j for j, e in enumerate(sc.decl) if e["parent"] == d["parent"] and j != i]
+        labs = [j for j in sibs if sc.decl[j]["kind"] == "L"]
+        if not sibs:
+            return None
+        j = rng.choice(labs) if labs and rng.chance(0.8) else rng.choice(sibs)
+        e = ("r", d["dots"], [sc.decl[j]["name"]])
+        return ("+", e, ("l", rng.range(1, 3))) if rng.chance(0.6) else e
+
     nodes = []
+    ci = -1
     for n in tree:
-        if n[0] == "C" and rng.chance(0.5):
-            n = ("C", n[1], n[2], addr_expr())
+        if n[0] in ("L", "C"):
+            ci += 1
+        if n[0] == "C" and rng.chance(0.6):
+            e = sibling_expr(ci) if (n[1] > 0 and rng.chance(0.6)) else None
+            n = ("C", n[1], n[2], e if e is not None else addr_expr())
         nodes.append(n)
+    # literal GLOBAL constants that carry the names used for locals: a dotted reference must not be judged by them
+    tops = [("C", 0, nm_, ("l", 7 + i)) for i, nm_ in enumerate(LOCALS) if rng.chance(0.6)]
+    # a nested constant defined from a dotted reference to a local whose value is an address (a label, or a constant that
+    # takes one), declared before or after it, one or two levels down, read by an instruction or a data directive
+    if rng.chance(0.6):
+        name = rng.choice(LOCALS)
+        if not any(t[2] == name for t in tops):
+            tops.append(("C", 0, name, ("l", 7)))
+        lvl = 1 if rng.chance(0.7) else 2
+        motif2 = [("L", 0, "u%d" % rng.below(3))] + ([("L", 1, "q")] if lvl == 2 else [])
+        referent = [("L", lvl, name)] if rng.chance(0.7) else [("C", lvl, name, ("r", 0, [rng.choice(["end", "start"])]))]
+        mexpr = ("r", lvl, [name])
+        if rng.chance(0.8):
+            mexpr = ("+", mexpr, ("l", rng.range(1, 2)))
+        user = [("C", lvl, "m", mexpr)]
+        reader = [("X", ("r", lvl, ["m"]))] if rng.chance(0.5) else [("D", 8, ("r", lvl, ["m"]))]
+        filler = [("O",)] if rng.chance(0.5) else []
+        if rng.chance(0.5):
+            motif2 += user + reader + referent + filler                  # the referent is declared later
+        else:
+            motif2 += referent + filler + user + reader
+        at = rng.below(len(nodes) + 1)
+        while at < len(nodes) and nodes[at][0] in ("L", "C") and nodes[at][1] > 0:
+            at += 1
+        nodes = nodes[:at] + motif2 + nodes[at:]
     # a scope opened by a constant right after a scope opened by a label (or the other way round), both with a child of
     # the same name, one a literal and one an address: at dot-level 0 or nested one level down
     if rng.chance(0.7):
@@ -612,13 +654,13 @@ def gen_instr_program(rng):
         while at < len(nodes) and nodes[at][0] in ("L", "C") and nodes[at][1] > 0:
             at += 1
         nodes = nodes[:at] + motif + nodes[at:]
-    nodes = [("L", 0, "start"), ("J", ("r", 0, ["end"]))] + nodes + [("L", 0, "end")]
+    nodes = tops + [("L", 0, "start"), ("J", ("r", 0, ["end"]))] + nodes + [("L", 0, "end")]
     sc = Scopes(nodes)
     if sc.error:
         return None
     paths = tree_paths(nodes, rng, extra=1)
     cands = []
-    for pos in range(2, len(nodes)):
+    for pos in range(2 + len(tops), len(nodes)):
         encl = sc.encl[pos - 1]
         for lvl in range(0, 4):
             for pth in paths:
@@ -626,8 +668,9 @@ def gen_instr_program(rng):
                     cands.append((pos, lvl, pth))
     picks = sorted(rng.shuffle(cands)[:rng.range(2, 5)], key=lambda c: -c[0])
     for pos, lvl, pth in picks:
-        nodes = nodes[:pos] + [("X", ("r", lvl, pth))] + nodes[pos:]
+        reader = ("X", ("r", lvl, pth)) if rng.chance(0.6) else ("D", 8, ("r", lvl, pth))
+        nodes = nodes[:pos] + [reader] + nodes[pos:]
     if rng.chance(0.3):
-        at = rng.range(2, len(nodes) - 1)
+        at = rng.range(2 + len(tops), len(nodes) - 1)
         nodes = nodes[:at] + [("J", ("r", 0, ["end"]))] + nodes[at:]
     return nodes
